@@ -25,7 +25,10 @@ PlaceScen == {[kind |-> "place", decl |-> d, ofile |-> f, opkg |-> p, exist |-> 
 PlaceOK == {s \in PlaceScen : ValidPlace(s.decl, s.ofile, s.exist, s.cwd)}
 ArgvScen == {[kind |-> "argv", argv |-> a] : a \in Argvs(ArgLen)}
 
-ASSUME ndJsonSerialize(ScenOut, SetToSeq(HistScen) \o (IF WithPlace THEN SetToSeq(PlaceOK) ELSE <<>>) \o (IF WithArgv THEN SetToSeq(ArgvScen) ELSE <<>>))
+\* the header of a fresh output under every combination of the two flags: -build-tags (absent / "" / one tag / two tags) and
+\* -output-constraint (absent / "" / the complement of the tag / something else); the tag itself reaches the loader through GOFLAGS
+HdrScen == {[kind |-> "hdr", tagflag |-> t, consflag |-> c] : t \in {"absent", "empty", "vtag", "vtag,other"}, c \in {"absent", "empty", "!vtag", "!xyz"}}
+ASSUME ndJsonSerialize(ScenOut, SetToSeq(HistScen) \o SetToSeq(HdrScen) \o (IF WithPlace THEN SetToSeq(PlaceOK) ELSE <<>>) \o (IF WithArgv THEN SetToSeq(ArgvScen) ELSE <<>>))
 ASSUME PrintT(<<"exported", Cardinality(HistScen), Cardinality(PlaceOK), Cardinality(ArgvScen)>>)
 VARIABLE x
 Init == x = 0
